@@ -155,6 +155,11 @@ pub fn gen_ttl_family_c(prop: &str, seed: u64, faulty: bool, conditional: bool) 
     if conditional && rng.chance(6, 10) {
         cfg.validator = Validator::Mod { m: rng.range(2, 3), r: rng.below(2) };
     }
+    if rng.chance(1, 4) {
+        // conflict-bearing keys without collisions: index = key, conflict hash non-zero (the
+        // transparent builder's conflict is 0, which switches every conflict test off)
+        cfg.keys = KeyMode::Collide { m: 0 };
+    }
     let mut sim = sim_plan(&mut rng, faulty);
     if faulty && rng.chance(1, 3) {
         let v = vstall(&mut rng);
